@@ -1661,29 +1661,28 @@ impl Fsm {
             let mut toFinalize: Vec<ExecutableContentId> = Vec::new();
             let mut toForward: Vec<InvokeId> = Vec::new();
             {
-                match externalEvent.invoke_id {
-                    None => {}
-                    Some(ref invokeId) => {
-                        match get_global!(datamodel).child_sessions.get(invokeId) {
-                            None => {}
-                            Some(session) => {
-                                // Get state of invokeid
-                                if let Some(state_id) = session.state_id {
-                                    let invoke_doc_id = session.invoke_doc_id;
-                                    let state = self.get_state_by_id(state_id);
-                                    for inv in state.invoke.iterator() {
-                                        if inv.doc_id == invoke_doc_id {
-                                            toFinalize.push(inv.finalize);
-                                        }
-                                        if inv.autoforward {
-                                            toForward.push(invokeId.clone());
-                                        }
-                                    }
+                // W3C:
+                //   for state in configuration:
+                //       for inv in state.invoke:
+                //           if inv.invokeid == externalEvent.invokeid: applyFinalize(inv, externalEvent)
+                //           if inv.autoforward: send(inv.id, externalEvent)
+                // The running invokes are the child sessions; the invoke element is identified by its document id.
+                let global = get_global!(datamodel);
+                for (invokeId, session) in &global.child_sessions {
+                    if let Some(state_id) = session.state_id {
+                        let state = self.get_state_by_id(state_id);
+                        for inv in state.invoke.iterator() {
+                            if inv.doc_id == session.invoke_doc_id {
+                                if externalEvent.invoke_id.as_ref() == Some(invokeId) {
+                                    toFinalize.push(inv.finalize);
+                                }
+                                if inv.autoforward {
+                                    toForward.push(invokeId.clone());
                                 }
                             }
                         }
                     }
-                };
+                }
             }
             datamodel.set_event(&externalEvent);
             for finalizeContentId in toFinalize {
